@@ -26,7 +26,9 @@
 (*            behaviours of the specification (the harness reports which   *)
 (*            one the code takes).  Numbers other than "*" are always      *)
 (*            interpreted in the issuing client's view; UIDs are absolute. *)
-(*  lat.mv    a MOVE selecting no message may or may not flush updates.    *)
+(*  lat.mv    a MOVE selecting no message may or may not flush updates     *)
+(*            (imapserver fails while writing the empty COPYUID and skips  *)
+(*            the poll); the completion of an empty COPY/MOVE is "any".    *)
 (*  dl[t]     how many pending updates an idling session t receives during *)
 (*            this step (IDLE delivery is asynchronous: the statement says *)
 (*            what may be sent, not when).                                 *)
@@ -228,8 +230,6 @@ Lats(s, c) ==
 \* a latitude is relevant only if it can change the step: of several latitudes
 \* with the same effect only the first is kept
 LatLess(a, b) == a.star < b.star \/ (a.star = b.star /\ a.mv = "all" /\ b.mv = "none")
-LatImpl(s, c) == [star |-> StarImpl(s, c), mv |-> "none"]
-LatRfc(s, c)  == [star |-> StarRfc(s, c), mv |-> "all"]
 
 \* queue of session t after the updates of this step have been dispatched
 Q1(t, disp) ==
